@@ -16,7 +16,7 @@ from vflib import core, simrun
 from simnet import advhist, authmon, mclient, proto, scen
 from simnet.scen import US
 
-SPOOFS = ["L", "I", "S", "O", "N", "R", "P", "data", "rawdata", "rawping", "rawlogin_bad"]
+SPOOFS = ["L", "I", "S", "O", "N", "R", "P", "data", "rawdata", "rawping", "rawlogin_bad", "replay", "replay"]
 
 
 class Scripted:
@@ -151,6 +151,22 @@ def run_one(params, with_spoofs):
             hdr = proto.data_header(uid, seq, 0, snap["out_seq"] if snap else 0, snap["out_frag"] if snap else 0, 1, mc.datacmc)
             mc.datacmc += 1
             mc.query(proto.msg_data(dl, hdr, V.up.encode(proto.deflate(f))))
+        elif kind == "replay":
+            # one of the victim's own recent queries, byte for byte (or with a new id), from the foreign address: the
+            # answer cache and the duplicate suppression sit behind the source check
+            cand = []
+            for dd in V.dgrams[-8:]:
+                try:
+                    first = proto.read_name(dd, 12)[0][0][:1]
+                except (proto.ParseError, IndexError):
+                    continue
+                if first in b"pP0123456789abcdefABCDEF":       # pings and data queries name the session
+                    cand.append(dd)
+            if cand:
+                d = srng.choice(cand)
+                if srng.random() < 0.5:
+                    d = struct.pack(">H", srng.randint(1, 65535)) + d[2:]
+                mc.send_raw_dgram(d)
         elif kind == "rawdata":
             mc.send_raw_dgram(proto.raw_frame(proto.RAW_DATA, uid, proto.deflate(frame("10.250.0.8", srv_tun, 40))))
         elif kind == "rawping":
